@@ -18,6 +18,8 @@ using std::string;
 static FILE* out;
 static std::vector<string> gLog;      // events logged from inside handlers during one stepTo
 static void logEv(const string& s) { gLog.push_back(s); }
+// the force-free slider moves linearly between handler interventions: q = segQ + segU (t - segT)
+static Real segT = 0, segQ = 0, segU = 1;
 static string num(Real x) {
     if (std::isinf(x)) return x > 0 ? "\"inf\"" : "\"-inf\"";
     if (std::isnan(x)) return "\"nan\"";
@@ -52,6 +54,8 @@ struct Model {
     }
 };
 
+static void noteSegment(const Model& m, const State& s);
+static int qOK(const Model& m, const State& s);
 struct Witness : public TriggeredEventHandler {
     const Model& m; string kind; Real c; int id; string act;
     Witness(const Model& m, const string& kind, Real c, bool rise, bool fall, Real win, int id, const string& act)
@@ -74,6 +78,7 @@ struct Witness : public TriggeredEventHandler {
         logEv(js.str());
         if (act == "setu") m.slider.setOneU(s, 0, -m.slider.getOneU(s, 0));
         else if (act == "term") term = true;
+        noteSegment(m, s);
     }
 };
 
@@ -91,6 +96,7 @@ struct Sched : public ScheduledEventHandler {
         if (act == "setu") m.slider.setOneU(s, 0, m.slider.getOneU(s, 0) + 0.5);
         else if (act == "setq") m.slider.setOneQ(s, 0, m.slider.getOneQ(s, 0) + 0.25);
         else if (act == "term") term = true;
+        noteSegment(m, s);
     }
 };
 struct Periodic : public PeriodicEventHandler {
@@ -101,6 +107,21 @@ struct Periodic : public PeriodicEventHandler {
         js << "{\"e\":\"H\",\"kind\":\"per\",\"id\":" << id << ",\"t\":" << num(s.getTime()) << "}";
         logEv(js.str());
         if (act == "setu") m.slider.setOneU(s, 0, m.slider.getOneU(s, 0) * 0.5);
+        noteSegment(m, s);
+    }
+};
+struct SchedRep : public ScheduledEventReporter {
+    const Model& m; std::vector<Real> times; int id;
+    SchedRep(const Model& m, std::vector<Real> t, int id) : m(m), times(t), id(id) {}
+    Real getNextEventTime(const State& s, bool includeCurrent) const override {
+        for (Real t : times) if (t > s.getTime() || (includeCurrent && t == s.getTime())) return t;
+        return Infinity;
+    }
+    void handleEvent(const State& s) const override {
+        std::ostringstream js;
+        js << "{\"e\":\"H\",\"kind\":\"srep\",\"id\":" << id << ",\"t\":" << num(s.getTime())
+           << ",\"q\":" << num(m.slider.getOneQ(s, 0)) << ",\"qok\":" << qOK(m, s) << "}";
+        logEv(js.str());
     }
 };
 struct Reporter : public PeriodicEventReporter {
@@ -109,9 +130,46 @@ struct Reporter : public PeriodicEventReporter {
     void handleEvent(const State& s) const override {
         std::ostringstream js;
         js << "{\"e\":\"H\",\"kind\":\"rep\",\"id\":" << id << ",\"t\":" << num(s.getTime())
-           << ",\"q\":" << num(m.slider.getOneQ(s, 0)) << "}";
+           << ",\"q\":" << num(m.slider.getOneQ(s, 0)) << ",\"qok\":" << qOK(m, s) << "}";
         logEv(js.str());
     }
+};
+
+static void noteSegment(const Model& m, const State& s) {
+    segT = s.getTime(); segQ = m.slider.getOneQ(s, 0); segU = m.slider.getOneU(s, 0);
+}
+static int qOK(const Model& m, const State& s) {
+    const Real want = segQ + segU * (s.getTime() - segT);
+    return std::fabs(m.slider.getOneQ(s, 0) - want) <= 1e-9 * std::max(1.0, std::fabs(want)) ? 1 : 0;
+}
+
+// A second subsystem with its own scheduled events (the System scans subsystems in index order
+// when it computes the time of the next scheduled event).
+class SchedSubGuts : public Subsystem::Guts {
+public:
+    std::vector<Real> times; mutable EventId eid; int id;
+    SchedSubGuts(std::vector<Real> t, int id) : Subsystem::Guts("SchedSub", "0"), times(t), id(id) {}
+    SchedSubGuts* cloneImpl() const override { return new SchedSubGuts(*this); }
+    int realizeSubsystemTopologyImpl(State& s) const override { createScheduledEvent(s, eid); return 0; }
+    void calcTimeOfNextScheduledEventImpl(const State& s, Real& tNext, Array_<EventId>& ids, bool incl) const override {
+        tNext = Infinity;
+        for (Real t : times) if (t > s.getTime() || (incl && t == s.getTime())) { tNext = t; break; }
+        if (tNext < Infinity) ids.push_back(eid);
+    }
+    void handleEventsImpl(State& s, Event::Cause cause, const Array_<EventId>& ids, const HandleEventsOptions&,
+                          HandleEventsResults& res) const override {
+        if (cause != Event::Cause::Scheduled) return;
+        for (auto e : ids) if (e == eid) {
+            std::ostringstream js;
+            js << "{\"e\":\"H\",\"kind\":\"sub\",\"id\":" << id << ",\"t\":" << num(s.getTime()) << "}";
+            logEv(js.str());
+        }
+        res.setExitStatus(HandleEventsResults::Succeeded);
+    }
+};
+class SchedSub : public Subsystem {
+public:
+    SchedSub(System& sys, std::vector<Real> t, int id) { adoptSubsystemGuts(new SchedSubGuts(t, id)); sys.adoptSubsystem(*this); }
 };
 
 static Integrator* makeInteg(const string& n, const System& sys) {
@@ -188,11 +246,21 @@ int main(int argc, char** argv) {
                 m.system.addEventHandler(new Periodic(m, pe["dt"].dbl(), hid++, pe.has("act") ? pe["act"].str() : "none"));
             for (auto& r : p["reporters"].arr())
                 m.system.addEventReporter(new Reporter(m, r["dt"].dbl(), hid++));
+            for (auto& r : p["schedrep"].arr()) {
+                std::vector<Real> ts; for (auto& t : r["times"].arr()) ts.push_back(t.dbl());
+                m.system.addEventReporter(new SchedRep(m, ts, hid++));
+            }
+            std::vector<std::unique_ptr<SchedSub>> subs;
+            for (auto& sb : p["subsched"].arr()) {
+                std::vector<Real> ts; for (auto& t : sb["times"].arr()) ts.push_back(t.dbl());
+                subs.emplace_back(new SchedSub(m.system, ts, hid++));
+            }
             m.system.realizeTopology();
             State s0 = m.system.getDefaultState();
             if (p.has("euler") && p["euler"].boolean()) { m.matter.setUseEulerAngles(s0, true); m.system.realizeModel(s0); }
             m.slider.setOneU(s0, 0, p.has("u0") ? p["u0"].dbl() : 1.0);
             if (m.kind == "loop") m.ball.setUToFitAngularVelocity(s0, Vec3(1.5, -0.7, 0.9));
+            segT = 0; segQ = 0; segU = p.has("u0") ? p["u0"].dbl() : 1.0;
             std::unique_ptr<Integrator> integ(makeInteg(p["integ"].str(), m.system));
             const mj::Value& o = p["opts"];
             if (o.has("final")) integ->setFinalTime(o["final"].dbl());
@@ -217,9 +285,9 @@ int main(int argc, char** argv) {
                     string exc; int st = -1;
                     try { st = ts.stepTo(c["to"].dbl()); } catch (const std::exception& e) { exc = e.what(); }
                     for (auto& l : gLog) fprintf(out, "%s\n", l.c_str());
-                    fprintf(out, "{\"e\":\"TSRet\",\"to\":%s,\"st\":%d,\"t\":%s,\"tadv\":%s,\"over\":%d,\"q\":%s,\"u\":%s,\"exc\":%s}\n",
+                    fprintf(out, "{\"e\":\"TSRet\",\"to\":%s,\"st\":%d,\"t\":%s,\"tadv\":%s,\"over\":%d,\"qok\":%d,\"q\":%s,\"u\":%s,\"exc\":%s}\n",
                             num(c["to"].dbl()).c_str(), st, num(integ->getTime()).c_str(), num(integ->getAdvancedTime()).c_str(),
-                            integ->isSimulationOver() ? 1 : 0, num(m.slider.getOneQ(integ->getState(), 0)).c_str(),
+                            integ->isSimulationOver() ? 1 : 0, qOK(m, integ->getState()), num(m.slider.getOneQ(integ->getState(), 0)).c_str(),
                             num(m.slider.getOneU(integ->getState(), 0)).c_str(), mj::quote(exc.substr(0, 200)).c_str());
                     if (!exc.empty()) break;
                 }
@@ -248,7 +316,8 @@ int main(int argc, char** argv) {
                         js << "],\"est\":[";
                         const Array_<Real>& est = integ->getEstimatedEventTimes();
                         for (int i = 0; i < (int)est.size(); ++i) js << (i ? "," : "") << num(est[i]);
-                        js << "],\"q\":" << num(m.slider.getOneQ(integ->getState(), 0));
+                        js << "],\"q\":" << num(m.slider.getOneQ(integ->getState(), 0))
+                           << ",\"tscale\":" << num(m.system.getDefaultTimeScale());
                     }
                     if (wantMan && exc.empty() && st != -1) js << ",\"man\":" << manifold(m, *integ, integ->getState());
                     js << ",\"exc\":" << mj::quote(exc.substr(0, 200)) << "}";
